@@ -109,8 +109,8 @@ Definition rd_bytes (s : list Z) : res (list Z * list Z) :=
 
 (* ReadStringList: make([]string, l) then l ReadString calls.  The allocation of l strings
    happens BEFORE any element is read: alloc_words is the number of string headers requested.
-   int(n) for a 64-bit n >= 2^63 is negative: makeslice panics; so does any l whose byte size
-   exceeds the address space (the run-time check is l*16 > maxAlloc = 2^48). *)
+   int(n) for a 64-bit n >= 2^63 is negative: nothing is allocated or read; a count whose byte
+   size exceeds the address space panics in makeslice (the run-time check is l*16 > maxAlloc = 2^48). *)
 Definition maxAlloc : Z := 281474976710656.
 Fixpoint rd_strings (k : nat) (s : list Z) : res (list (list Z) * list Z) :=
   match k with
@@ -122,7 +122,8 @@ Definition rd_strlist (s : list Z) : res (list (list Z) * list Z) :=
   match ol with
   | None => Ok ([], r)
   | Some n => let l := i64 n in
-              if (l <? 0) || (maxAlloc <? l * 16) then Panic
+              if l <? 0 then Ok ([], r)          (* the slice is not shorter than a negative l, and the loop does not run *)
+              else if maxAlloc <? l * 16 then Panic
               else rd_strings (Z.to_nat l) r
   end.
 
@@ -169,7 +170,8 @@ Fixpoint read_full (fuel : nat) (k : Z) (s : src) (acc : list Z) {struct fuel} :
     end
   end.
 
-Definition src_fuel (s : src) (k : Z) : nat := S (length s + Z.to_nat k).
+(* every Read either empties a chunk or completes the request: |s| + 1 calls suffice (never a nat of size k) *)
+Definition src_fuel (s : src) (k : Z) : nat := S (S (length s)).
 
 (* reader.Uint8: ONE Read call into buf[0:1]; n < 1 without error is io.EOF *)
 Definition srd_u8 (s : src) : res (Z * src) :=
@@ -214,7 +216,8 @@ Definition srd_strlist (s : src) : res (list (list Z) * src) :=
   match ol with
   | None => Ok ([], r)
   | Some n => let l := i64 n in
-              if (l <? 0) || (maxAlloc <? l * 16) then Panic
+              if l <? 0 then Ok ([], r)
+              else if maxAlloc <? l * 16 then Panic
               else srd_strings (Z.to_nat l) r
   end.
 
